@@ -868,6 +868,20 @@ func (s *Scope) evalCall(e *Expr) *Val {
 			panic(sfail("samearray: slices expected"))
 		}
 		return scalar(And(Eq(a.Base, b.Base), Eq(a.Off, b.Off), Eq(a.Cap, b.Cap)), boolT)
+	case "separate":
+		// separate(a, b): the two references (pointers or slices) belong to different allocations
+		root := func(v *Val) Term {
+			switch v.K {
+			case KSlice:
+				return RefRoot(v.Base)
+			case KScalar:
+				if v.T.Sort == SRef {
+					return RefRoot(v.T)
+				}
+			}
+			panic(sfail("separate: pointers or slices expected"))
+		}
+		return scalar(Neq(root(argv(0)), root(argv(1))), boolT)
 	case "disjoint":
 		// disjoint(a, b): two slices backed by different allocations
 		a, b := argv(0), argv(1)
